@@ -244,7 +244,7 @@ def rowsAt? (pool : List (Key × List Int)) (s : Snap) (t : Nat) : Option (List 
 
 /-! ### Commands, threads, system -/
 
-inductive DelOp where | lt | eq | ge | all
+inductive DelOp where | lt | eq | ge | all | bt
 deriving Repr, BEq, DecidableEq, Inhabited
 
 def DelOp.holds : DelOp → Int → Int → Bool
@@ -252,10 +252,11 @@ def DelOp.holds : DelOp → Int → Int → Bool
   | .eq, c, v => v == c
   | .ge, c, v => v ≥ c
   | .all, _, _ => true
+  | .bt, c, v => c ≤ v && v ≤ c + 2
 
 inductive Cmd where
   | create (t : Nat) | drop (t : Nat) | insert (t : Nat) (vs : List Int)
-  | delete (t : Nat) (op : DelOp) (c : Int) | select (t : Nat) | count (t : Nat)
+  | delete (t : Nat) (op : DelOp) (c : Int) | select (t : Nat) (key : Option Int) | count (t : Nat)
   | read (t : Nat) (batch : Nat) | compact | vacuum
 deriving Repr, BEq, Inhabited
 
@@ -304,6 +305,10 @@ structure Sys where
   ddlLock : Option Tid := none
   catalog : List (Nat × Nat) := []      -- (name, table id)
   tables  : List Nat := []
+  /-- ids of the tables that have a primary key: their row-sets are stored sorted by key, and a
+  compaction MERGES them (the clause relied on: "the compacted row-set of a keyed table is sorted
+  by key"; the merging heap itself is C12's generated model) -/
+  keyed   : List Nat := []
   nextTid : Nat := 0
   ths     : List (Tid × Th) := []
   outs    : List (Tid × Cmd × Res) := []
@@ -335,6 +340,17 @@ def sortKeys : List Key → List Key
 def dedupKeys : List Key → List Key
   | [] => []
   | x :: r => if r.contains x then dedupKeys r else x :: dedupKeys r
+
+def insInt (x : Int) : List Int → List Int
+  | [] => [x]
+  | y :: r => if x ≤ y then x :: y :: r else y :: insInt x r
+
+def sortInt : List Int → List Int
+  | [] => []
+  | x :: r => insInt x (sortInt r)
+
+/-- by convention of the harness tables named `t50`.. are created with `v` as PRIMARY KEY -/
+def keyedName (n : Nat) : Bool := decide (50 ≤ n)
 
 /-- handlers of a DELETE: visible rows of the scan's snapshot satisfying the predicate -/
 def handlers? (k : K) (e : Nat) (t : Nat) (op : DelOp) (c : Int) : Option (List (Key × Nat)) :=
@@ -464,7 +480,7 @@ def resultOf (s : Sys) (th : Tid) (t : Th) : Option Res :=
                               if handlersGone (s.k.status e) hs then some (.err .notfound) else none
                           | _, _ => none)
                 | none => none)
-      | .insert n _ | .select n | .count n =>
+      | .insert n _ | .select n _ | .count n =>
           if !t.isBound then (if (lookupName s n).isNone then some (.err .bind) else none)
           else (match t.btab with
                 | some tb => if s.tables.contains tb then none else some (.err .notfound)
@@ -481,7 +497,7 @@ def stepBound (s : Sys) (th : Tid) : Option Sys :=
     match t.cmd with
     | some (.create n) =>
         if (lookupName s n).isSome then none else some (setTh s th { t with isBound := true })
-    | some (.drop n) | some (.insert n _) | some (.delete n _ _) | some (.select n) | some (.count n) =>
+    | some (.drop n) | some (.insert n _) | some (.delete n _ _) | some (.select n _) | some (.count n) =>
         (match lookupName s n with
          | some tb => some (setTh s th { t with isBound := true, btab := some tb })
          | none => none)
@@ -510,9 +526,11 @@ def stepUnpin (s : Sys) (th : Tid) (e : Nat) : Option Sys :=
         -- the scan thread of a statement finishes: its output goes to the statement
         let p := getTh s (parent th)
         (match p.cmd with
-         | some (.select _) =>
+         | some (.select _ f) =>
              (match rowsAt? s.k.pool (s.k.status e) t.tab with
-              | some r => some (setTh s1 (parent th) { p with res := some (.rows r) })
+              | some r =>
+                  let r' := match f with | some c => r.filter (fun v => v == c) | none => r
+                  some (setTh s1 (parent th) { p with res := some (.rows r') })
               | none => none)
          | some (.count _) =>
              (match rowsAt? s.k.pool (s.k.status e) t.tab with
@@ -544,7 +562,7 @@ def stepTxnPinned (s : Sys) (th : Tid) (m : Mode) (tb : Nat) : Option Sys :=
           | some (.insert _ _), .rw => true
           | some (.delete _ _ _), .ro => true
           | some (.delete _ _ _), .upd => true
-          | some (.select _), .ro => true
+          | some (.select _ _), .ro => true
           | some (.count _), .ro => true
           | _, _ => false
         if !okMode then none
@@ -592,7 +610,8 @@ def stepCommitBegin (s : Sys) (th : Tid) : Option Sys :=
       (match p.cmd, t.mode with
        | some (.insert _ vs), .rw =>
            some (setTh (withK s (kReserve s.k th t.tab)) th
-             { t with begun := true, ops := [.add (t.tab, s.k.nextRid) vs] })
+             { t with begun := true,
+                      ops := [.add (t.tab, s.k.nextRid) (if s.keyed.contains t.tab then sortInt vs else vs)] })
        | some (.delete _ _ _), .upd =>
            (match p.mail with
             | some hs =>
@@ -664,8 +683,9 @@ def stepCreateApplied (s : Sys) (th : Tid) : Option Sys :=
      | some (.create n) =>
          if (lookupName s n).isSome || !(getTh s th).committed then none
          else
+           let kd := if keyedName n then s.nextTid :: s.keyed else s.keyed
            let s1 := { s with catalog := (n, s.nextTid) :: s.catalog, tables := s.nextTid :: s.tables,
-                              nextTid := s.nextTid + 1 }
+                              keyed := kd, nextTid := s.nextTid + 1 }
            some (setTh s1 (parent th) { p with res := some (.rows [1]) })
      | _ => none)
 
@@ -698,7 +718,9 @@ def stepCpLocked (s : Sys) (th : Tid) (tb : Nat) : Option Sys :=
     if t.cpCur != some tb || t.cpGot || (heldBy s tb).isSome then none
     else (match compactPlan? s.k t.snapE tb with
           | some plan =>
-              some (setTh { s with tlocks := (tb, th) :: s.tlocks } th { t with cpGot := true, cpPlan := plan })
+              -- a keyed table is compacted by a MERGE: the new row-set is sorted by key
+              let plan' := if s.keyed.contains tb then plan.map (fun p => (p.1, sortInt p.2)) else plan
+              some (setTh { s with tlocks := (tb, th) :: s.tlocks } th { t with cpGot := true, cpPlan := plan' })
           | none => none)
 
 def stepCpEnd (s : Sys) (th : Tid) : Option Sys :=
